@@ -1378,13 +1378,23 @@ fn compile_cexpr(goenv: &GlobalGoEnv, e: &anf::CExpr) -> goast::Expr {
                         }
                     }
                     "vec_push" => {
-                        // vec_push(v, elem) -> append(v, elem)
+                        // vec_push(v, elem) -> append(v[:len(v):len(v)], elem)
+                        // Vectors are values: a plain append(v, elem) would write into spare
+                        // capacity that another vector built from the same v can also see.
+                        let mut args_iter = compiled_args.into_iter();
+                        let v_arg = args_iter.next().unwrap();
+                        let v_ty = v_arg.get_ty().clone();
+                        let mut push_args = vec![goast::Expr::ClippedSlice {
+                            slice: Box::new(v_arg),
+                            ty: v_ty,
+                        }];
+                        push_args.extend(args_iter);
                         goast::Expr::Call {
                             func: Box::new(goast::Expr::Var {
                                 name: "append".to_string(),
                                 ty: func_ty,
                             }),
-                            args: compiled_args,
+                            args: push_args,
                             ty: tast_ty_to_go_type(ty),
                         }
                     }
